@@ -55,7 +55,7 @@ class _InMemoryConsumer(ConsumerT):
         await asyncio.sleep(0)
         self._started = False
         while self._queue.processing:
-            self._queue.simple.put_nowait(self._queue.processing.pop())
+            self._queue.put_back(self._queue.processing.pop())
         await asyncio.sleep(0)
 
     def __update_delayed(self) -> None:
@@ -118,6 +118,7 @@ class _InMemoryConsumer(ConsumerT):
                 self.__update_delayed()
 
         self._queue.processing.add(msg)
+        self._queue.taken_by[msg.key.id_] = self
 
         await asyncio.sleep(0)
         return (msg.key, msg.payload, msg.parameters)
